@@ -44,15 +44,15 @@ Section Init.
   Proof. unfold gen_oe_mean_motion, n0, twopi, min_per_day. (sp; field). Qed.
 
   Lemma cosIO_spec : G gen_sgp4_cosIO = theta E.
-  Proof. (sp; reflexivity). Qed.
+  Proof. (sp; eq_mod_ring). Qed.
   Lemma oe_incl : G gen_oe_inclination = i0.
-  Proof. (sp; reflexivity). Qed.
+  Proof. (sp; eq_mod_ring). Qed.
   Lemma oe_argp : G gen_oe_arg_perigee = w0.
-  Proof. (sp; reflexivity). Qed.
+  Proof. (sp; eq_mod_ring). Qed.
   Lemma oe_ma : G gen_oe_mean_anomaly = M0.
-  Proof. (sp; reflexivity). Qed.
+  Proof. (sp; eq_mod_ring). Qed.
   Lemma oe_raan : G gen_oe_right_ascension = O0.
-  Proof. (sp; reflexivity). Qed.
+  Proof. (sp; eq_mod_ring). Qed.
 
   (* The report's quantities behind the unnamed temporaries of _calculate_basic_orbit_params are located by
      shape in the generated term (the Rpowq, the numerator over a1^2, the base of the second square), and each
@@ -61,7 +61,7 @@ Section Init.
   Definition TEMP0 : R := (3 / 2) * k2 * ((3 * (theta E)^2 - 1) / powr (1 - e0^2) (3 / 2)).
 
   Lemma a1_any x : x = (743669161 / 10000000000) / G gen_oe_mean_motion -> Rpowq x (2 / 3) = a1 E.
-  Proof. intros ->. rewrite oe_mean_motion_spec. (sp; reflexivity). Qed.
+  Proof. intros ->. rewrite oe_mean_motion_spec. (sp; eq_mod_ring). Qed.
 
   Ltac temp0_tac :=
     unfold TEMP0, gen_sgp4_x3thm1, gen_sgp4_betao, gen_sgp4_betao2, powr, k2; rewrite ?cosIO_spec;
@@ -111,17 +111,17 @@ Section Init.
   Lemma period_spec : G gen_sgp4_period = period_min E.
   Proof.
     unfold gen_sgp4_period, period_min, twopi. rewrite xnodp_spec.
-    replace (2 * PI * 1440 / 1440) with (2 * PI) by field. (sp; reflexivity).
+    replace (2 * PI * 1440 / 1440) with (2 * PI) by field. (sp; eq_mod_ring).
   Qed.
 
   Lemma s_const : 430409 / 425209 = s_param.
   Proof. unfold s_param, XKMPER, aE. (sp; field). Qed.
 
   Lemma tsi_spec : 1 / (G gen_sgp4_aodp - 430409 / 425209) = xi E.
-  Proof. rewrite aodp_spec, s_const. (sp; reflexivity). Qed.
+  Proof. rewrite aodp_spec, s_const. (sp; eq_mod_ring). Qed.
 
   Lemma eta_spec : G gen_sgp4_eta_v2 = eta E.
-  Proof. unfold gen_sgp4_eta_v2, eta. rewrite tsi_spec, aodp_spec. (sp; reflexivity). Qed.
+  Proof. unfold gen_sgp4_eta_v2, eta. rewrite tsi_spec, aodp_spec. (sp; eq_mod_ring). Qed.
 
   (* the near-earth-normal guard (perigee >= 220 km) gives  s < a0''(1 - e0), hence
      a0'' > s > 0, xi > 0 and 0 < eta < 1 *)
@@ -171,7 +171,7 @@ Section Init.
   Qed.
 
   Lemma c1_spec : G gen_sgp4_c1_v2 = C1 E.
-  Proof. unfold gen_sgp4_c1_v2, C1. rewrite c2_spec. (sp; reflexivity). Qed.
+  Proof. unfold gen_sgp4_c1_v2, C1. rewrite c2_spec. (sp; eq_mod_ring). Qed.
 
   Lemma c4_spec : G gen_sgp4_c4_v2 = C4 E.
   Proof.
@@ -201,7 +201,7 @@ Section Init.
   Qed.
 
   Lemma omgcof_spec : G gen_sgp4_omgcof_v1 = bstar * C3 E * cos w0.
-  Proof. unfold gen_sgp4_omgcof_v1. rewrite c3_spec. (sp; reflexivity). Qed.
+  Proof. unfold gen_sgp4_omgcof_v1. rewrite c3_spec. (sp; eq_mod_ring). Qed.
 
   Lemma xmcof_spec :
     G gen_sgp4_xmcof_v3 = - (2 / 3) * q0ms4 * bstar * (xi E)^4 * (aE / (e0 * eta E)).
@@ -220,12 +220,17 @@ Section Init.
   Proof.
     rewrite aodp_spec. unfold gen_sgp4_betao2, beta0. facts. sp.
     sp. replace (sqrt (1 - e0 ^ 2) ^ 4) with ((sqrt (1 - e0 ^ 2) ^ 2) ^ 2) by ring.
-    sp. rewrite pow2_sqrt by lra. (sp; reflexivity).
+    sp. rewrite pow2_sqrt by lra. (sp; eq_mod_ring).
   Qed.
+
+  (* the same, wherever 1 / d occurs with d the product of the two squares in either order *)
+  Lemma pinvsq_any d : d = (G gen_sgp4_aodp)^2 * (G gen_sgp4_betao2)^2 -> 1 / d = 1 / ((a0'' E)^2 * (beta0 E)^4).
+  Proof. intros ->. apply pinvsq_spec. Qed.
+  Ltac pinvsq := repeat match goal with |- context [1 / ?d] => rewrite (pinvsq_any d) by ring end.
 
   Lemma xmdot_spec : G gen_sgp4_xmdot = Mdot E.
   Proof.
-    unfold gen_sgp4_xmdot. cbv zeta. rewrite pinvsq_spec, xnodp_spec.
+    unfold gen_sgp4_xmdot. cbv zeta. pinvsq. rewrite xnodp_spec.
     unfold gen_sgp4_x3thm1, gen_sgp4_betao, gen_sgp4_betao2. rewrite cosIO_spec.
     unfold Mdot, k2. replace (sqrt (1 - e0 ^ 2)) with (beta0 E) by reflexivity. facts. sp.
     assert (Hb : 0 < beta0 E) by (unfold beta0; sp; apply sqrt_lt_R0; lra).
@@ -234,7 +239,7 @@ Section Init.
 
   Lemma omgdot_spec : G gen_sgp4_omgdot = wdot E.
   Proof.
-    unfold gen_sgp4_omgdot. cbv zeta. rewrite pinvsq_spec, xnodp_spec, cosIO_spec.
+    unfold gen_sgp4_omgdot. cbv zeta. pinvsq. rewrite xnodp_spec, cosIO_spec.
     unfold wdot, k2, k4. facts. sp.
     assert (Hb : 0 < beta0 E) by (unfold beta0; sp; apply sqrt_lt_R0; lra).
     (sp; field). split; lra.
@@ -243,14 +248,14 @@ Section Init.
   Lemma xhdot1_spec :
     G gen_sgp4_xhdot1 = - 3 * k2 * theta E / ((a0'' E)^2 * (beta0 E)^4) * n0'' E.
   Proof.
-    unfold gen_sgp4_xhdot1. rewrite pinvsq_spec, xnodp_spec, cosIO_spec. unfold k2. facts. sp.
+    unfold gen_sgp4_xhdot1. pinvsq. rewrite xnodp_spec, cosIO_spec. unfold k2. facts. sp.
     assert (Hb : 0 < beta0 E) by (unfold beta0; sp; apply sqrt_lt_R0; lra).
     (sp; field). split; lra.
   Qed.
 
   Lemma xnodot_spec : G gen_sgp4_xnodot = Odot E.
   Proof.
-    unfold gen_sgp4_xnodot. cbv zeta. rewrite xhdot1_spec, pinvsq_spec, xnodp_spec, cosIO_spec.
+    unfold gen_sgp4_xnodot. cbv zeta. rewrite xhdot1_spec. pinvsq. rewrite xnodp_spec, cosIO_spec.
     unfold Odot, k2, k4. facts. sp.
     assert (Hb : 0 < beta0 E) by (unfold beta0; sp; apply sqrt_lt_R0; lra).
     (sp; field). split; lra.
@@ -268,7 +273,7 @@ Section Init.
   Qed.
 
   Lemma t2cof_spec : G gen_sgp4_t2cof_v2 = (3 / 2) * C1 E.
-  Proof. unfold gen_sgp4_t2cof_v2. rewrite c1_spec. (sp; reflexivity). Qed.
+  Proof. unfold gen_sgp4_t2cof_v2. rewrite c1_spec. (sp; eq_mod_ring). Qed.
 
   (* long-period coefficients *)
   Lemma xlcof_spec : 1 + theta E <> 0 ->
@@ -282,7 +287,7 @@ Section Init.
   Proof. unfold gen_sgp4_aycof, gen_sgp4_sinIO, A30, k2. rewrite oe_incl. (sp; field). Qed.
 
   Lemma delmo_spec : G gen_sgp4_delmo_v2 = (1 + eta E * cos M0)^3.
-  Proof. unfold gen_sgp4_delmo_v2, gen_sgp4_cosXMO. rewrite eta_spec, oe_ma. (sp; reflexivity). Qed.
+  Proof. unfold gen_sgp4_delmo_v2, gen_sgp4_cosXMO. rewrite eta_spec, oe_ma. (sp; eq_mod_ring). Qed.
 
   Lemma d2_spec : G gen_sgp4_d2 = D2 E.
   Proof. unfold gen_sgp4_d2. rewrite tsi_spec, aodp_spec, c1_spec. unfold D2. (sp; ring). Qed.
@@ -300,7 +305,7 @@ Section Init.
   Qed.
 
   Lemma t3cof_spec : G gen_sgp4_t3cof = D2 E + 2 * (C1 E)^2.
-  Proof. unfold gen_sgp4_t3cof. rewrite d2_spec, c1_spec. (sp; reflexivity). Qed.
+  Proof. unfold gen_sgp4_t3cof. rewrite d2_spec, c1_spec. (sp; eq_mod_ring). Qed.
   Lemma t4cof_spec : G gen_sgp4_t4cof =
     (1 / 4) * (3 * D3 E + 12 * C1 E * D2 E + 10 * (C1 E)^3).
   Proof. unfold gen_sgp4_t4cof. rewrite d3_spec, d2_spec, c1_spec. (sp; ring). Qed.
